@@ -183,6 +183,11 @@ def deliver (r : MqReq) (label : String) : M Unit := do
       | [l, m] => (l, m.toInt?)
       | _ => (label, none)
     cacheEnqueue eid (.httpCallAccessDone sub h action params (parseAccess lab) ms)
+  | .httpAuth eid cid h next =>
+    let (lab, ms) := match label.splitOn "|meta=" with
+      | [l, m] => (l, m.toInt?)
+      | _ => (label, none)
+    cacheEnqueue eid (.httpAuthDone cid h (parseCallAns lab) ms next)
   | .call eid k =>
     match k with
     | .httpCall cid h ams _ =>
@@ -190,6 +195,11 @@ def deliver (r : MqReq) (label : String) : M Unit := do
         | [l, m] => (l, m.toInt?)
         | _ => (label, none)
       cacheEnqueue eid (.callDone (.httpCall cid h ams ms) (parseCallAns lab))
+    | .httpMapped cid h ams _ =>
+      let (lab, ms) := match label.splitOn "|meta=" with
+        | [l, m] => (l, m.toInt?)
+        | _ => (label, none)
+      cacheEnqueue eid (.callDone (.httpMapped cid h ams ms) (parseCallAns lab))
     | _ => cacheEnqueue eid (.callDone k (parseCallAns label))
   | .query eid rs => cacheEnqueueUnlock eid (.queryAnswer rs (parseQAns label))
   | .tokenAuth => pure ()
@@ -266,17 +276,29 @@ def stimulus (line : String) : M Unit := do
     -- a temporary connection (protocol latest) carrying one request
     let cid ← newConn
     modConn cid fun c => { c with protocol := 1002003 }
-    let _ ← connEnqueue cid (.httpGet ((h.drop 1).toString.toNat?.getD 0) rid)
+    let hn := (h.drop 1).toString.toNat?.getD 0
+    let _ ← if (← get).hauth then connEnqueue cid (.httpAuth hn (.get rid)) else connEnqueue cid (.httpGet hn rid)
   | ["http", h, "HEAD", rid] =>
     -- HEAD is handled exactly as GET (dropping the body is left to the HTTP server)
     let cid ← newConn
     modConn cid fun c => { c with protocol := 1002003 }
-    let _ ← connEnqueue cid (.httpGet ((h.drop 1).toString.toNat?.getD 0) rid)
+    let hn := (h.drop 1).toString.toNat?.getD 0
+    let _ ← if (← get).hauth then connEnqueue cid (.httpAuth hn (.get rid)) else connEnqueue cid (.httpGet hn rid)
   | ["http", h, "POST", rid, action, params] =>
     let cid ← newConn
     modConn cid fun c => { c with protocol := 1002003 }
-    let _ ← connEnqueue cid (.httpCall ((h.drop 1).toString.toNat?.getD 0) rid action (if params == "-" then "null" else params))
+    let hn := (h.drop 1).toString.toNat?.getD 0
+    let ps := if params == "-" then "null" else params
+    let _ ← if (← get).hauth then connEnqueue cid (.httpAuth hn (.call rid action ps)) else connEnqueue cid (.httpCall hn rid action ps)
     -- (handleCall passes a nil json.RawMessage for an empty body, which is marshalled as `null`)
+  | ["http", h, "PUT", rid, params] =>
+    -- Config.PUTMethod = "put": handled as a call of that method; `method` in the action slot marks it
+    let cid ← newConn
+    modConn cid fun c => { c with protocol := 1002003 }
+    let hn := (h.drop 1).toString.toNat?.getD 0
+    let ps := if params == "-" then "null" else params
+    let _ ← if (← get).hauth then connEnqueue cid (.httpAuth hn (.call rid "PUT:put" ps)) else connEnqueue cid (.httpCall hn rid "PUT:put" ps)
+  | ["http", h, "DELETE405"] => emit s!"H {h} status=405 body=err:system.methodNotAllowed"
   | ["http", h, "GET404"] => emit s!"H {h} status=404 body=err:system.notFound"
   | ["http", h, "POST404"] => emit s!"H {h} status=404 body=err:system.notFound"
   | ["disconnect", c] => let _ ← connEnqueue (cidOf c) .dispose
